@@ -54,7 +54,8 @@ ASSUMPTIONS = ['no rule or alias is named _ambig/_iambig (reserved tree labels)'
                'additionally every proper prefix of that match which the terminal matches',
                '%ignore (dynamic lexers): a chain of non-empty re.match results of %ignore terminals may precede any token and '
                'follow the last one; ignorable characters are disjoint from the grammar terminals in the generated grammars; '
-               'layer A (spans) is stated and checked for grammars without %ignore']
+               'layer A for grammars with %ignore: under the basic lexer on the token list the lexer leaves (positions = token '
+               'indices); under the dynamic lexers through the instrumented dynamic model (dyn-families)']
 
 IMPORTS = 'From LV Require Import Base.Prelude Forest.ExplicitToTree Forest.ExplicitCheck.'
 
@@ -1319,7 +1320,7 @@ def run_stream(ctx, stream, ngrammars, cyclic_wanted, maxlen, cases, meta, defs,
                       ambig_nodes=(min(5, repr(obs['tree']).count('_ambig')) if obs['status'] == 'ok' else 'n/a'))
             if verdict:
                 ctx.violation('property-oracle:%s' % verdict[0], witness(g, lexer, text, opts), True, verdict[1])
-            if obs['status'] in ('ok', 'ok-huge') and acases is not None:
+            if obs['status'] in ('ok', 'ok-huge') and acases is not None and (not ignore or lexer == 'basic'):
                 gf = graph_families(obs['root'])
                 ga = export_graph_case(obs['root'], parser, lexer, text, 'a%s%d_%d' % (stream[0], made, len(acases[0])), gf)
                 if gf is not None:
@@ -1371,8 +1372,10 @@ def correspond(ctx):
     run_stream(ctx, 'stacked-corpus', 0, False, 0, cases, meta, defs, acases, corpus=STACKED_CORPUS)
     run_stream(ctx, 'acyclic', ctx.scale(80, 1500) * k, False, 4, cases, meta, defs, acases)
     run_stream(ctx, 'cyclic', ctx.scale(25, 300) * k, True, 3, cases, meta, defs, acases)
-    # %ignore: layer B and the derivation oracle only (the span bookkeeping of layer A has no notion of ignored text)
-    run_stream(ctx, 'ignore', ctx.scale(40, 600) * k, False, 3, cases, meta, defs, None, ignore=True)
+    # %ignore: layer B and the derivation oracle; layer A (graph form, added-vs-forest) where the lexer is basic - the
+    # basic lexer drops the ignored tokens, the parser works on the remaining token list; the dynamic lexers' layer A
+    # is the dyn-families stream
+    run_stream(ctx, 'ignore', ctx.scale(40, 600) * k, False, 3, cases, meta, defs, acases, ignore=True)
     exotic_f6(ctx, cases, meta, defs)
     check_layer_a(ctx, acases)
     run_alg_families(ctx, ctx.scale(30, 400) * k)
@@ -1422,12 +1425,18 @@ def run_alg_families(ctx, ngrammars):
         cyc = rng.random() < 0.25
         opts = {'maybe_placeholders': True, 'keep_all_tokens': False}
         g = gen_grammar(rng, 'basic', cyc)
+        ign_chars = []
+        if rng.random() < 0.33:
+            g, ign_chars = add_ignores(rng, g)
         try:
             parser = with_timeout(lambda: make_parser(g, 'basic', **opts))
         except (GrammarError, Hang):
             continue
         made += 1
-        for text in list(all_inputs('ab', 3)) + ['a' * 4, 'a' * 5, 'abab', 'aabb']:
+        texts = list(all_inputs('ab', 3)) + ['a' * 4, 'a' * 5, 'abab', 'aabb']
+        if ign_chars:
+            texts += [decorate(rng, t, ign_chars) for t in texts]
+        for text in texts:
             try:
                 r = parse_logged(parser, text)
             except Hang:
